@@ -1,5 +1,6 @@
 """C15 Registry converges: after quiescence every node returns the same instances (thin, structural clauses only)."""
 import re
+from rn.facts import rv_operands
 from rn import cfg, util
 from rn.flow import Taint, field_place_src
 
@@ -133,8 +134,23 @@ def _run15(ck, fb):
         ck.require(len(pushes) == 2, 'R15c', 'delay.do_notify:both-lists', dd.where(), 'updates and removals are not both collected')
     dly = ck.body(DN + 'delay_notify', 'R15c')
     if dly:
-        ins = util.mut_calls_on_field(dly, 'instances_map', r'HashMap::<K, V, S, A>::insert$')
-        ck.require(len(ins) >= 1, 'R15c', 'delay_notify:records', dly.where(), 'a change is not recorded for the next batch')
+        # the LAST change queued for a key before the flush decides whether the peers get an update or a removal: on every path the entry of the
+        # key ends up with THIS call's is_update (a fresh NotifyItem stored through insert / the entry API, or an assignment of the field)
+        pl = [l for l in range(1, dly.argc + 1) if dly.local_name(l) == 'is_update']
+        tp = Taint(dly, local_src=pl)
+        sinks = set()
+        for s0 in dly.calls(r'HashMap::<K, V, S, A>::insert$|Entry::<.*>::(insert|insert_entry|or_insert)|VacantEntry::<.*>::insert|OccupiedEntry::<.*>::insert|Entry<.*>::or_insert'):
+            for a in s0.args[1:]:
+                ag = util.agg_of(dly, a)
+                if ag is not None and ag['adt'].endswith('NotifyItem') and 'is_update' in ag['fields'] and tp.op_tainted(ag['ops'][ag['fields'].index('is_update')]):
+                    sinks.add(s0.bb)
+        for (o, f, bb, st) in dly.field_writes():
+            if f == 'is_update' and any(tp.op_tainted(y) for y in rv_operands(st['rv'])):
+                sinks.add(bb)
+        ck.require(bool(pl) and bool(sinks) and cfg.must_pass_before_return(dly, 0, sinks), 'R15c', 'delay_notify:records', dly.where(),
+                   'a change can pass through delay_notify without its kind (update / removal) being recorded for the key: register + deregister of one '
+                   'instance inside one 500 ms tick is flushed as an update, the peers keep the instance for ever (HTTP copies have no time-out)',
+                   'the kind of the last change is stored on every path')
     h = fb.impls(r'^actix::Handler$', r'ClusterInstanceDelayNotifyActor$', r'InstanceDelayNotifyRequest$', 'handle')
     for b in h:
         ck.analysed(b)
